@@ -30,8 +30,8 @@ CONSTANTS Bases,          \* subset of BaseNames
           AnisoBases,     \* bodies that are also explored flat: stretched by diag(k,k,1), diag(k,1,k), diag(1,k,k)
           AnisoFactors,   \* the factors k for bodies with at most 8 faces (extent ratios 1:k, up to the body's own proportions)
           AnisoBigFactors,\* the factors k for bodies with more faces
-          AnisoPairs,     \* flip pairs of faces as well as single faces before a face is brought to the front
-          AnisoRewind,    \* also rewind the first face cyclically (all six ways to write the seed face)
+          AnisoPairs,     \* flip pairs of faces as well as single faces before a face is brought to the front (bodies with <= 8 faces)
+          AnisoRewind,    \* also rewind the first face cyclically: all six ways to write the seed face (bodies with <= 8 faces)
           AnisoDupFaces   \* flat bodies with at most this many faces are also explored as two disconnected parts
 VARIABLES m, kind, base, n, last,
           st,             \* stretch of the concrete mesh: the real object has the vertices Stretch(m, st).v; m itself stays small
@@ -54,7 +54,7 @@ Unit == <<1, 1, 1>>
 Flat(k) == {<<k, k, 1>>, <<k, 1, k>>, <<1, k, k>>}
 Stretches(b) == UNION {Flat(k) : k \in (IF Len(BaseMesh(b).f) > 8 THEN AnisoBigFactors ELSE AnisoFactors)}
                 \cup (IF b \in Bases THEN {} ELSE {Unit})          \* a body without a "std" instance is also explored unstretched
-AnisoFlipSets(k) == Singles(k) \cup (IF AnisoPairs THEN Pairs(k) ELSE {})
+AnisoFlipSets(k) == Singles(k) \cup (IF AnisoPairs /\ k <= 8 THEN Pairs(k) ELSE {})
 FarShift == <<7, 0, 0>>                       \* farther than any base mesh is wide: the copy is disjoint
 \* second parts that pierce the base body: a lattice box chosen so that some edge goes through the interior of a face
 \* (KindTruth proves it), and for the box also a displaced copy of itself
@@ -110,7 +110,7 @@ AnisoStep ==
   /\ kind = "closed" /\ fam = "aniso"
   /\ \/ n = 0 /\ \E S \in AnisoFlipSets(Len(m.f)) : Step(FlipFaces(m, S), "closed", 1, "flip", S)
      \/ n <= 1 /\ \E j \in 2..Len(m.f) : Step(PermuteFaces(m, ToFront(Len(m.f), j)), "closed", 2, "permute", ToFront(Len(m.f), j))
-     \/ AnisoRewind /\ n \in {2, 3} /\ Step(RewindCyclic(m, {1}), "closed", n + 1, "rewind", {1})
+     \/ AnisoRewind /\ Len(m.f) <= 8 /\ n \in {2, 3} /\ Step(RewindCyclic(m, {1}), "closed", n + 1, "rewind", {1})
      \/ Len(m.f) <= AnisoDupFaces /\ Step(DuplicateShifted(m, FarShift), "dup", n, "dup", FarShift)
 Next == TetraStep \/ BigStep \/ Derive \/ PairStep \/ AnisoStep
 Spec == Init /\ [][Next]_vars
